@@ -699,6 +699,9 @@ where
 {
     fn next(&mut self) -> io::Result<Option<Argument>> {
         let mut result = vec![];
+        // Whether an argument has begun: quotes begin one even if nothing is
+        // between them ("" is an empty argument).
+        let mut started = false;
         let mut terminated_by_newline = false;
 
         let mut pending = vec![];
@@ -730,7 +733,7 @@ where
                             format!("Unterminated quote: {q}"),
                         ));
                     }
-                    if result.is_empty() {
+                    if !started {
                         // Nothing but separators since the last argument.
                         return Ok(None);
                     }
@@ -749,15 +752,24 @@ where
                     result.push(c);
                     escape = None;
                 }
-                (None, c @ (b'"' | b'\'')) => escape = Some(Escape::Quote(c)),
-                (None, b'\\') => escape = Some(Escape::Slash),
+                (None, c @ (b'"' | b'\'')) => {
+                    escape = Some(Escape::Quote(c));
+                    started = true;
+                }
+                (None, b'\\') => {
+                    escape = Some(Escape::Slash);
+                    started = true;
+                }
                 (None, c) if c.is_ascii_whitespace() => {
-                    if !result.is_empty() {
+                    if started {
                         terminated_by_newline = c == b'\n';
                         break;
                     }
                 }
-                (None, c) => result.push(c),
+                (None, c) => {
+                    result.push(c);
+                    started = true;
+                }
             }
 
             i += 1;
